@@ -1,9 +1,10 @@
-import HgVerif.Model.RefLink
+import HgVerif.Model.RefLinkChain
 import HgVerif.Driver.Proto
 /-! Model driver for C13: same line protocol as `harness/drv_ref.cpp`.
 Consumer ids `0 .. ncons-1` are the counting consumers (consumer 1 is `Unchecked`); id `ncons` is
 the stdlib recorder reading through the reference (an `Unchecked` consumer that stores the captured
-delta when its input is modified and the delta is observable). -/
+delta when its input is modified and the delta is observable).
+Every configuration is a selection tree (`Chain`): `ite` = `i(a,b)`, `cmp` = `m(a,b,c)`, `tree:<T>` as given. -/
 open HgVerif.RefLink HgVerif.Driver
 
 structure DS where
@@ -12,16 +13,93 @@ structure DS where
   inner : Bool := false
   innerRef : Bool := false
   cmp : Bool := false
+  /-- `cfg ... tree:<T>` -/
+  chained : Bool := false
+  /-- the selection tree with all nodes in their initial state -/
+  tree : Chain := .ite 0 {} (.leaf 0) (.leaf 1)
+  /-- number of selection nodes / their arities (by selector number) -/
+  arity : List Nat := [2]
+  nT : Nat := 2
   cfgBad : Bool := false
-  st : State := {}
+  st : CSys := { chain := .ite 0 {} (.leaf 0) (.leaf 1), s := {} }
 
-def mkState (shape : Shape) (ncons : Nat) (inner innerRef cmp : Bool) : State :=
-  init { shape := shape, nC := ncons + 1, nT := if cmp then 3 else 2,
+def mkState (shape : Shape) (ncons : Nat) (inner innerRef : Bool) (nT : Nat) : State :=
+  init { shape := shape, nC := ncons + 1, nT := nT,
          checked := fun c => c != 1 && c != ncons,
          startSched := if inner && ncons ≥ 2 then [1] else [],
          resample := if innerRef && ncons ≥ 2 then [1] else [] }
 
-def DS.fresh (d : DS) : DS := { d with st := mkState d.shape d.ncons d.inner d.innerRef d.cmp }
+def DS.fresh (d : DS) : DS :=
+  { d with st := { chain := d.tree, s := mkState d.shape d.ncons d.inner d.innerRef d.nT } }
+
+/-! selection trees: `T ::= a|b|c|d | i(T,T) | m(T,T,T) | p(T)` (same limits as the harness) -/
+
+structure TP where
+  rest : List Char
+  nsel : Nat := 0
+  arity : List Nat := []
+  nT : Nat := 0
+
+def maxTargets : Nat := 4
+def maxSel : Nat := 6
+def maxDepth : Nat := 4
+
+def expect (c : Char) (p : TP) : Option TP :=
+  match p.rest with
+  | x :: xs => if x == c then some { p with rest := xs } else none
+  | [] => none
+
+/-- recursive descent; `fuel` bounds the depth -/
+def parseTree : Nat → TP → Option (Chain × TP)
+  | 0, _ => none
+  | fuel + 1, p =>
+    match p.rest with
+    | [] => none
+    | ch :: xs =>
+      if 'a'.toNat ≤ ch.toNat && ch.toNat < 'a'.toNat + maxTargets then
+        let t := ch.toNat - 'a'.toNat
+        some (.leaf t, { p with rest := xs, nT := max p.nT (t + 1) })
+      else if ch == 'p' then
+        (expect '(' { p with rest := xs }).bind fun p1 =>
+        (parseTree fuel p1).bind fun (k, p2) =>
+        (expect ')' p2).map fun p3 => (.pass k, p3)
+      else if ch == 'i' then
+        if p.nsel ≥ maxSel then none else
+        let id := p.nsel
+        (expect '(' { p with rest := xs, nsel := p.nsel + 1, arity := p.arity ++ [2] }).bind fun p1 =>
+        (parseTree fuel p1).bind fun (l, p2) =>
+        (expect ',' p2).bind fun p3 =>
+        (parseTree fuel p3).bind fun (r, p4) =>
+        (expect ')' p4).map fun p5 => (.ite id {} l r, p5)
+      else if ch == 'm' then
+        if p.nsel ≥ maxSel then none else
+        let id := p.nsel
+        (expect '(' { p with rest := xs, nsel := p.nsel + 1, arity := p.arity ++ [3] }).bind fun p1 =>
+        (parseTree fuel p1).bind fun (a, p2) =>
+        (expect ',' p2).bind fun p3 =>
+        (parseTree fuel p3).bind fun (b, p4) =>
+        (expect ',' p4).bind fun p5 =>
+        (parseTree fuel p5).bind fun (c, p6) =>
+        (expect ')' p6).map fun p7 => (.cmp id {} a b c, p7)
+      else none
+
+def makeTree (txt : String) : Option (Chain × TP) :=
+  match parseTree maxDepth { rest := txt.toList } with
+  | some (t, p) =>
+    if !p.rest.isEmpty then none else
+    match t with
+    | .ite .. | .cmp .. => some (t, p)
+    | _ => none
+  | none => none
+
+/-- number of tree nodes (selection operators and pass-throughs) whose REF output ticked: those whose
+    published reference differs between the old and the new tree -/
+def published : Chain → Chain → Nat
+  | .ite _ s l r, .ite _ s' l' r' => (if s.out != s'.out then 1 else 0) + published l l' + published r r'
+  | .cmp _ s a b c, .cmp _ s' a' b' c' =>
+    (if s.out != s'.out then 1 else 0) + published a a' + published b b' + published c c'
+  | .pass k, .pass k' => (if k.out != k'.out then 1 else 0) + published k k'
+  | _, _ => 0
 
 def insSorted (p : Int × String) : List (Int × String) → List (Int × String)
   | [] => [p]
@@ -110,26 +188,42 @@ def parseSpec (sh : Shape) (tok : String) : Option Delta :=
         | _ => none) (some {})
 
 structure CyParse where
-  sel : Option Nat := none
+  sel : List (Nat × Nat) := []
   d : List (Nat × Delta) := []
 
-def targetIdx (k : String) (cmp : Bool) : Option Nat :=
-  if k == "a" then some 0 else if k == "b" then some 1 else if k == "c" && cmp then some 2 else none
+def targetIdx (k : String) (nT : Nat) : Option Nat :=
+  match k.toList with
+  | [ch] => if 'a'.toNat ≤ ch.toNat && ch.toNat < 'a'.toNat + nT then some (ch.toNat - 'a'.toNat) else none
+  | _ => none
+
+def digit (ch : Char) (bound : Nat) : Option Nat :=
+  if '0'.toNat ≤ ch.toNat && ch.toNat < '0'.toNat + bound then some (ch.toNat - '0'.toNat) else none
 
 def parseCycle (d : DS) (ws : List String) : Option CyParse :=
   ws.foldl (fun acc w => acc.bind fun (cy : CyParse) =>
     match w.splitOn "=" with
     | [k, v] =>
       if k == "sel" then
-        match targetIdx v d.cmp, cy.sel with
-        | some i, none => some { cy with sel := some i }
+        if d.chained then none else
+        match targetIdx v d.nT, cy.sel with
+        | some i, [] => some { cy with sel := [(0, i)] }
         | _, _ => none
       else
-        match targetIdx k d.cmp with
-        | some i =>
-          if cy.d.any (·.1 == i) then none
-          else (parseSpec d.shape v).map fun dl => { cy with d := cy.d ++ [(i, dl)] }
-        | none => none
+        match k.toList, v.toList with
+        | ['s', kc], [vc] =>
+          if !d.chained then none else
+          match digit kc d.arity.length with
+          | some n =>
+            match digit vc (d.arity.getD n 0) with
+            | some b => if cy.sel.any (·.1 == n) then none else some { cy with sel := cy.sel ++ [(n, b)] }
+            | none => none
+          | none => none
+        | _, _ =>
+          match targetIdx k d.nT with
+          | some i =>
+            if cy.d.any (·.1 == i) then none
+            else (parseSpec d.shape v).map fun dl => { cy with d := cy.d ++ [(i, dl)] }
+          | none => none
     | _ => none) (some {})
 
 def ownText (sh : Shape) (t : Target) : String :=
@@ -138,10 +232,11 @@ def ownText (sh : Shape) (t : Target) : String :=
   | _ => deltaText sh t.added t.removed t.modKV
 
 def cycleLine (d : DS) (cy : CyParse) : DS × String :=
-  let inp : CycleIn := { sel := cy.sel, ticks := fun t => (cy.d.find? (·.1 == t)).map (·.2) }
-  let r := cycle d.st inp
-  let s' := r.1
-  let names := ["ra", "rb", "rc"]
+  let inp : CIn := { conds := fun n => (cy.sel.find? (·.1 == n)).map (·.2),
+                     ticks := fun t => (cy.d.find? (·.1 == t)).map (·.2) }
+  let r := cycleC d.st inp
+  let s' := r.1.s
+  let names := ["ra", "rb", "rc", "rd"]
   let recs := (List.range s'.nT).map fun t =>
     s!" {names.getD t "r?"}=" ++ (if (s'.targets t).lmt == s'.now then ownText d.shape (s'.targets t) else "-")
   let seen := fun (c : Nat) => (r.2.find? (·.1 == c)).map (·.2)
@@ -149,8 +244,9 @@ def cycleLine (d : DS) (cy : CyParse) : DS × String :=
     " | " ++ (match seen c with
       | some v => seenText d.shape v
       | none => "-")
-  ({ d with st := s' },
-   s!"r={b2s (s'.refLmt == s'.now)}" ++ String.join recs ++ " rs=" ++ recText d.shape (seen d.ncons) ++ String.join cons)
+  ({ d with st := r.1 },
+   s!"r={b2s (s'.refLmt == s'.now)}" ++ (if d.chained then s!" n={published d.st.chain r.1.chain}" else "") ++
+   String.join recs ++ " rs=" ++ recText d.shape (seen d.ncons) ++ String.join cons)
 
 def shapeOf (s : String) : Option Shape :=
   if s == "ts" then some .ts else if s == "tss" then some .tss else if s == "tsd" then some .tsd else none
@@ -163,11 +259,17 @@ def step (d : DS) (ws : List String) : DS × String :=
     let bad : DS × String := ({ d.fresh with cfgBad := true }, "bad-op")
     match args with
     | sh :: n :: stage :: more =>
-      match shapeOf sh, more with
-      | some shape, [] | some shape, ["ite"] | some shape, ["cmp"] =>
+      let topo : Option (Bool × String) := match more with
+        | [] | ["ite"] => some (false, "i(a,b)")
+        | ["cmp"] => some (false, "m(a,b,c)")
+        | [t] => if t.startsWith "tree:" then some (true, (t.drop 5).toString) else none
+        | _ => none
+      match shapeOf sh, topo.bind (fun tp => (makeTree tp.2).map fun r => (tp.1, r)) with
+      | some shape, some (chained, tree, tp) =>
         if (n == "1" || n == "2" || n == "3") && (stage == "direct" || stage == "pass" || stage == "inner" || stage == "innerref") then
           (({ shape := shape, ncons := n.toNat!, inner := stage == "inner" || stage == "innerref",
-              innerRef := stage == "innerref", cmp := more == ["cmp"] } : DS).fresh, "ok")
+              innerRef := stage == "innerref", cmp := more == ["cmp"], chained := chained, tree := tree,
+              arity := tp.arity, nT := tp.nT } : DS).fresh, "ok")
         else bad
       | _, _ => bad
     | _ => bad
